@@ -34,17 +34,17 @@ PROPS = {
     'C11': dict(units=['diag', 'state_analyzer', 'state_analyzer@small', 'glue'],
                 claim='write_state_diag_str prints for every term column exactly one action line of the kind the table entry has, with the rule number / target state of that entry (including the losing reduction of a resolved S/R conflict); the RULES list numbers rules as the action lines do; all name/rule/symbol indices in bounds; add_situation files an item under the symbol after its dot',
                 assumptions=['that the item sets and conflict flags in the table are the true LR(1) ones is C01 (transitions/closure not under contract)', 'text formatting is lowered to events (R10)', 'the DFA dump is not verified']),
-    'C12': dict(units=['dfa', 'driver', 'stdex', 'state_analyzer'],
+    'C12': dict(units=['dfa', 'driver', 'stdex', 'state_analyzer', 'cvec_iter'],
                 claim='dfa_size_analyzer arithmetic (prim/add/rep: {0} keeps the slice, {n} adds n-1 copies) under an explicit no-wrap precondition; cvector preconditions (size < N) as call-site obligations; stack/capacity of the driver; add_situation capacity preconditions',
                 assumptions=['analyser vs builder lock-step over the same parse is not mechanised; the builder (rep/cat/alt/...) is not under contract', 'sufficiency of the default table caps is a counting (pigeonhole) argument, not mechanised',
                              'nothing in the header establishes the no-wrap precondition of dfa_size_analyzer::rep (finding D12)']),
-    'C02': dict(units=['driver', 'stdex', 'dfa', 'terms', 'rules', 'values', 'glue', 'reductors'],
+    'C02': dict(units=['driver', 'stdex', 'dfa', 'terms', 'rules', 'values', 'glue', 'reductors', 'cvec_iter'],
                 claim='driver-level half of bottom-up evaluation: which rule functor is invoked, with which stack slice, in which order, once; shift applies the term functor of the shifted term to the pending lexeme; success returns the bottom value',
                 assumptions=[L_PATH, L_IDS, TABLE_WF, R13, 'that the popped slice is the handle of the unique derivation is the LR(1) theorem (C01), not mechanised']),
     'C04': dict(units=['driver', 'utils', 'dfa', 'buffers', 'terms', 'values'], static=[SF.buffers_static],
                 claim='whitespace skipping is exactly the documented sets; the lexer is asked once at the skipped position with the whole rest of the buffer; the lexeme is exactly [current_it, current_it+len); a failure result yields one Unexpected character report',
                 assumptions=[LEXER, 'longest match/first-listed priority of the automaton itself: unit dfa (dfa_match/run); the union automaton built by merging is not verified (finding D10)']),
-    'C06': dict(units=['driver', 'stdex', 'utils', 'regex_lexer', 'dfa', 'values'], all=['driver', 'stdex'],
+    'C06': dict(units=['driver', 'stdex', 'utils', 'regex_lexer', 'dfa', 'values', 'cvec_iter'], all=['driver', 'stdex'],
                 claim='every CBMC safety check (bounds, pointer validity/overflow, signed/unsigned overflow, division) plus the logical bounds woven by R9/R7 on every parse-path function under its precondition; recovery pops and input discarding strictly progress',
                 assumptions=[L_PATH, L_IDS, TABLE_WF, LEXER, 'termination of a run of reductions that consume nothing (no reduce cycle in a conflict-free table) is not mechanised',
                              'std::vector / std::string stacks and buffers are trusted; the proof is for the cvector stacks']),
@@ -57,7 +57,7 @@ PROPS = {
     'C10': dict(units=['driver', 'values'],
                 claim="source_point::update follows the statement's rule byte by byte; every advance of the parse position is paired with an update over exactly that range; values and messages carry the source point of the pending term's first byte",
                 assumptions=['line/column counters below 2^30 (cannot be reached with buffers <= 4096 bytes; the counters are 32-bit)', LEXER]),
-    'C14': dict(units=['driver', 'stdex', 'reductors'],
+    'C14': dict(units=['driver', 'stdex', 'reductors', 'cvec_iter'],
                 claim='driver-level linearity of value identifiers: ids on the stack are pairwise distinct, reduce erases exactly the slice it passed, pop_stacks discards, success returns the bottom; nothing reads an erased slot',
                 assumptions=[L_PATH, L_IDS, R13, 'rvalue passing, move-only types, moved-from reads inside reduce_value_impl and exactly-once destruction are C++ object semantics outside the verified text']),
     'C15': dict(units=['driver'], all=['driver'], static=[SF.c15_static],
